@@ -82,7 +82,11 @@ func extract(ctx context.Context, rs io.ReadSeeker, scanFunc func() osm.Scanner,
 				for obj := range objChan {
 					switch objType := obj.(type) {
 					case *osm.Node:
-						o.processNode(obj.(*osm.Node), keep, keepTags)
+						if o.processNode(obj.(*osm.Node), keep, keepTags) {
+							passMX.Lock()
+							needAnotherPass = true
+							passMX.Unlock()
+						}
 					case *osm.Way:
 						if o.processWay(obj.(*osm.Way), keep, keepTags) {
 							passMX.Lock()
@@ -274,7 +278,10 @@ func (o *Data) hasNeedRelation(id osm.RelationID) (has, need bool) {
 }
 
 // If the node has the tag we want, add it to the list.
-func (o *Data) processNode(n *osm.Node, keep KeepFunc, keepTags bool) {
+// anotherPass reports whether the node was newly stored: the keep function
+// may select further objects because of it (KeepBounds does), so the file
+// has to be read again.
+func (o *Data) processNode(n *osm.Node, keep KeepFunc, keepTags bool) (anotherPass bool) {
 	defer verifEnter('n', int64(n.ID))()
 	hasNode, needNode := o.hasNeedNode(n.ID)
 	if hasNode {
@@ -286,7 +293,9 @@ func (o *Data) processNode(n *osm.Node, keep KeepFunc, keepTags bool) {
 		o.Nodes[n.ID] = copyNode(n, keepTags)
 		verifRec("store", 'n', int64(n.ID), true, false)
 		o.nodeMX.Unlock()
+		anotherPass = true
 	}
+	return
 }
 
 func (o *Data) processNodeNoCopy(n *Node, keep KeepFunc, keepTags bool) {
@@ -316,6 +325,7 @@ func (o *Data) processWay(w *osm.Way, keep KeepFunc, keepTags bool) (anotherPass
 		o.Ways[w.ID] = copyWay(w, keepTags)
 		verifRec("store", 'w', int64(w.ID), true, false)
 		o.wayMX.Unlock()
+		anotherPass = true
 		for _, n := range w.Nodes {
 			verifGate("dep", 'n', int64(n.ID))
 			if _, needNode := o.hasNeedNode(n.ID); !needNode {
@@ -367,6 +377,7 @@ func (o *Data) processRelation(r *osm.Relation, keep KeepFunc, keepTags bool) (a
 		o.Relations[r.ID] = copyRelation(r, keepTags)
 		verifRec("store", 'r', int64(r.ID), true, false)
 		o.relationMX.Unlock()
+		anotherPass = true
 		for _, m := range r.Members {
 			switch m.Type {
 			case osm.TypeNode:
